@@ -52,14 +52,15 @@ class NeedFork(Exception):
 
 
 class Frame:
-    __slots__ = ('locals', 'globals', 'parent', 'fn', 'qualname')
+    __slots__ = ('locals', 'globals', 'parent', 'fn', 'qualname', 'fn_obj')
 
-    def __init__(self, locals_, globals_, parent=None, fn=None, qualname=''):
+    def __init__(self, locals_, globals_, parent=None, fn=None, qualname='', fn_obj=None):
         self.locals = locals_
         self.globals = globals_
         self.parent = parent
         self.fn = fn
         self.qualname = qualname
+        self.fn_obj = fn_obj if fn_obj is not None else (parent.fn_obj if parent is not None else None)
 
 
 class Cell:
